@@ -12,6 +12,7 @@ Three layers:
 import RB.Proofs.Lemmas.Identity
 import RB.Proofs.Lemmas.Text
 import RB.Proofs.Lemmas.DataFile
+import RB.Model.Session
 
 namespace RB.Identity
 
@@ -179,6 +180,14 @@ theorem c07_line_roundtrip_bool_fails :
     parseMeas (renderMeas { exLine with value := "True".toList, crit := "Success".toList }) = none := by
   decide +kernel
 
+/-- excluded class (b3): a line feed inside one of the run's identifying columns
+(`extra_args` from a YAML folded scalar ends in `\n`) breaks every measurement
+line of the run in two; nothing of the run reloads -/
+theorem c07_line_roundtrip_newline_in_columns_fails :
+    (splitLines (renderMeas { exLine with cols := ["B".toList, "E".toList, "S".toList, "folded args\n".toList,
+        "1".toList, [], [], [], []] } ++ ['\n'])).map parseMeas = [none, none] := by
+  decide +kernel
+
 /-! ## File -/
 
 variable {κ β : Type} [DecidableEq κ] [DecidableEq β] (benchOf : κ → β)
@@ -239,5 +248,14 @@ theorem c07_ids_inplace_env_fails :
     errOf (load rtEx rtEx s1Ex) = none ∧ benchIds s2Ex = [0, 1] ∧
     errOf (load rtEx rtEx s2Ex) = some .assertBenchDup := by
   decide +kernel
+
+/-- "its sample count … equal[s] that of the recording session" fails for a
+run contained in experiments with different data files: every file is loaded
+into the same run, so one recorded data point counts once per file -/
+theorem c07_samples_multifile_fails :
+    let ls : List (Loaded Nat) := [{ k := 0, inv := 1, it := 1 }]
+    let c : RB.Session.RunC Nat := { key := 0, invocations := 1, retries := 0, warmup := 0, files := [0, 1], builds := [] }
+    (RB.Session.initRun c [ls, ls]).samples = 2 ∧ (RB.Session.initRun c [ls, ls]).m = 1 := by
+  decide
 
 end RB.DataFile
